@@ -105,6 +105,7 @@ class Sim:
         self.client_focus_hits = {}
         self.focus_keys = []
         self.focus_files = ()
+        self.focus_skip = frozenset()
         self.instr_key = tuple(spec['instr_fn']) if spec.get('instr_fn') else None
         self.instr_codes = []
         self.focus_hits = 0
@@ -140,6 +141,7 @@ class Sim:
             self.focus_keys = [tuple(st['fn'])] if st.get('fn') else []
             self.focus_keys += [tuple(f) for f in st.get('fns', [])]
             self.focus_files = tuple(st.get('files', []))
+            self.focus_skip = frozenset(st.get('skip_names', []))
         for c, oi, ev in spec.get('gcs_at', []):
             if 0 <= c < len(clients):
                 clients[c].gcs.setdefault(oi, []).append(ev)
@@ -165,7 +167,7 @@ class Sim:
             for fk in self.focus_keys:
                 if code.co_name == fk[1] and code.co_firstlineno == fk[2] and fn.endswith(fk[0]):
                     v |= 4
-            if self.focus_files and fn.endswith(self.focus_files):
+            if self.focus_files and fn.endswith(self.focus_files) and code.co_name not in self.focus_skip:
                 v |= 4
             ik = self.instr_key
             if ik is not None and code.co_name == ik[1] and code.co_firstlineno == ik[2] and fn.endswith(ik[0]):
